@@ -43,6 +43,12 @@ fn linearise(rng: &mut Rng, nodes: &[(AEv, Vec<usize>)], sticky: usize) -> Vec<A
     out
 }
 
+thread_local! {
+    /// one attempt of the next contract stream gets this many extra `Log` events (a LONG attempt: hundreds of
+    /// events that may sit buffered behind another entity)
+    pub static LONG_ATTEMPT: std::cell::Cell<usize> = const { std::cell::Cell::new(0) };
+}
+
 pub fn gen_contract_stream(rng: &mut Rng, cat: &Cat, sticky: usize) -> Vec<AEv> {
     let mut nodes: Vec<(AEv, Vec<usize>)> = vec![];
     let mut add = |e: AEv, deps: Vec<usize>, nodes: &mut Vec<(AEv, Vec<usize>)>| { nodes.push((e, deps)); nodes.len() - 1 };
@@ -63,7 +69,13 @@ pub fn gen_contract_stream(rng: &mut Rng, cat: &Cat, sticky: usize) -> Vec<AEv> 
             let mut ret = budget.map(|b| (0usize, b));
             let mut prev = open;
             loop {
-                let (evs, failed) = gen_attempt(rng, s.key, nbg, s.spec.steps.len(), ret, hooks, p_fail, true);
+                let (mut evs, failed) = gen_attempt(rng, s.key, nbg, s.spec.steps.len(), ret, hooks, p_fail, true);
+                let long = LONG_ATTEMPT.with(std::cell::Cell::get);
+                if long > 0 && evs.len() >= 2 && rng.chance(1, 3) {
+                    LONG_ATTEMPT.with(|l| l.set(0));
+                    let extra: Vec<AEv> = (0..long).map(|i| AEv::Scen(s.key, ret, ASc::Log(i % 7))).collect();
+                    evs.splice(1..1, extra);
+                }
                 for e in evs {
                     let deps = if prev == open { vec![open] } else { vec![prev] };
                     nodes.push((e, deps));
@@ -121,8 +133,11 @@ pub fn gen_norm(rng: &mut Rng, idx: usize) -> Case {
     let specs = gen_catalog_specs_twins(rng, 3);
     let cat = Rc::new(Cat::new(&specs));
     let sticky = *rng.pick(&[0usize, 0, 3, 6, 8]);
+    let long = idx > 0 && rng.chance(1, 25);
+    if long { LONG_ATTEMPT.with(|l| l.set(rng.range(257, 420))); }
     let mut evs = gen_contract_stream(rng, &cat, sticky);
-    let breaking = rng.chance(1, 12);
+    LONG_ATTEMPT.with(|l| l.set(0));
+    let breaking = !long && rng.chance(1, 12);
     if breaking && evs.len() > 3 {
         // break the contract: drop, duplicate or move one event
         match rng.below(3) {
